@@ -193,7 +193,11 @@ func (c *packetConn) getWriteHandler(b []byte, to net.Addr, cb AsyncWriteCallbac
 }
 
 func (c *packetConn) Close() error {
-	atomic.StoreUint32(&c.closed, 1)
+	if !atomic.CompareAndSwapUint32(&c.closed, 0, 1) {
+		// The descriptor was released by the first Close; its number may already belong to something else.
+		return io.EOF
+	}
+
 	_ = c.ioc.UnsetReadWrite(&c.slot)
 	c.ioc.Deregister(&c.slot)
 	return syscall.Close(c.slot.Fd)
